@@ -79,7 +79,7 @@ Print Assumptions C09_escape.
    function returning the record). *)
 Theorem C09_worker_survives : forall c r a disc,
   handler_thread py_cap py_lower c r a disc = (run_task c r a disc, o_escaped (run_task c r a disc)).
-Proof. reflexivity. Qed.
+Proof. exact (handler_thread_total py_cap py_lower). Qed.
 Print Assumptions C09_worker_survives.
 
 (* No traceback text unless expose_tracebacks: with the setting off the whole
